@@ -62,7 +62,7 @@ def _modular_params(I, body):
     out = {}
     for i in range(1, body.arg_count + 1):
         ty = body.locals[i]["ty"]
-        if ty.startswith("Modular<") or ty.startswith("mint::Modular<") or ty.endswith("Modular<M>"):
+        if ty.startswith("Modular<") or ty.startswith("mint::Modular<") or ty.endswith(">") and "Modular<" in ty:
             out[i] = ("proj", 0, ("param", i, I.names.get(i)))
     return out
 
@@ -79,7 +79,8 @@ def _summaries(crate):
         ev.obligations.append(("argument of Modular::new fits i64: [%s, %s]" % (lo, hi), fits, t))
         return ((B(0), B(-1, 1)), ev.cong(arg))
 
-    return {"Modular::<M>::md": md, "Modular::<M>::new": new}
+    # keyed by the functions' own printed paths (the const parameter may be called anything)
+    return {util.need_body(crate, "Modular::<M>::md").path: md, util.need_body(crate, "Modular::<M>::new").path: new}
 
 
 SPECS = {
@@ -93,11 +94,25 @@ SPECS = {
 }
 
 
+def _is_new_path(p):
+    """the printed path of Modular::new, whatever the const parameter is called"""
+    import re as _re
+    return bool(_re.search(r"Modular::<\w+>::new$", str(p)))
+
+
+def _bind_modulus(crate):
+    """the const parameter of Modular under whatever name the crate gives it (`M`, `MOD`, ..)"""
+    global M
+    gn = util.generic_names(crate, "Modular")
+    M = ("gparam", gn[0] if len(gn) == 1 else "M")
+
+
 def check(col, prog, tier, profile, fixture=None):
     crate = prog.crate(fixture or "rlib_mint")
     sfx = "" if profile == "dev" else "@" + profile
     fk = util.fkey
     adt = util.need_adt(crate, "Modular")
+    _bind_modulus(crate)
     col.rule("M1" + sfx, "representation invariant, overflow-freedom, value-preserving casts, congruence — for all M and operands", floor=20 if profile == "dev" else 12)
     col.rule("M2" + sfx, "operator families, Div = Mul by inv, pow = binary exponentiation over the argument via MulAssign, IO and formatting go through v / new", floor=11)
 
@@ -207,7 +222,7 @@ def check(col, prog, tier, profile, fixture=None):
                     val = sts[-1].val
             elif ret[0] == "agg" and isinstance(ret[1], tuple) and ret[1][0] == "adt":
                 val = ret[2][0]
-            elif ret[0] == "call" and str(ret[1]).endswith("Modular::<M>::new"):
+            elif ret[0] == "call" and _is_new_path(ret[1]):
                 val = ret
             elif ret[0] == "param":
                 val = ("proj", 0, ret)
@@ -422,7 +437,7 @@ def _families(col, crate, adt, targets, sfx, modes=None, assign_of=None, A=None)
             col.obligation(False)
     # inv returns through new
     I = util.analyse(invb)
-    ok = bool(I.final_states) and all((util.ret_term(st)[0] == "call" and str(util.ret_term(st)[1]).endswith("Modular::<M>::new")) or _trivial_inverse_path(I, st) for st in I.final_states)
+    ok = bool(I.final_states) and all((util.ret_term(st)[0] == "call" and _is_new_path(util.ret_term(st)[1])) or _trivial_inverse_path(I, st) for st in I.final_states)
     if ok:
         col.ok("M2" + sfx, invb.loc(), "%s|through-new" % fk(invb), "inv() returns Self::new(..): representation invariant holds by M1")
         col.obligation(True)
@@ -536,7 +551,7 @@ def _families(col, crate, adt, targets, sfx, modes=None, assign_of=None, A=None)
     I = util.analyse(rd)
     for st in I.final_states:
         ret = util.ret_term(st)
-        ok = ret[0] == "call" and str(ret[1]).endswith("Modular::<M>::new") and ret[2][0][0] == "call" and "read" in str(ret[2][0][1])
+        ok = ret[0] == "call" and _is_new_path(ret[1]) and ret[2][0][0] == "call" and "read" in str(ret[2][0][1])
         calls = [e for e in st.event_list() if e.kind == "call" and e.extra.get("name") == "read"]
         ok = ok and calls and (calls[0].fn.get("args") or [""])[-1] == "i64"
         if ok:
@@ -821,7 +836,7 @@ def _bezout(col, crate, invb, sfx, fk):
     for l, v in entry.items():
         if isinstance(v, tuple) and v and v[0] == "load" and strip_mem(v[2]) == strip_mem(("field", selfp, 0)):
             V = T.poly(v)
-    Mv = ("gparam", "M")
+    Mv = M
     Mp = T.poly(Mv)
     if V is None:
         col.violation("M3" + sfx, key + "|loop", invb.loc(), "inv(): no loop variable starts as self's representative")
